@@ -941,3 +941,60 @@ Proof.
   - eapply in_list_keys; [apply lookup_in, F | apply parse_key_name_small, L].
   - unfold load. rewrite F. reflexivity.
 Qed.
+
+(* ------------------------------------------------------------------ *)
+(* statements in the form props/C19.v quotes them                      *)
+
+Lemma failed_save_keeps_old_both : forall d k bufs f leak p,
+  save_ok k bufs f leak = false ->
+  stop_prefix p (save_calls k bufs f leak) ->
+  lookup (key_name k) (run d p) = lookup (key_name k) d /\ load k (run d p) = load k d.
+Proof.
+  intros d k bufs f leak p E H.
+  pose proof (failed_save_keeps_old_lemma d k bufs f leak p E H) as A.
+  split; [exact A | unfold load; rewrite A; reflexivity].
+Qed.
+
+Lemma op_list_subset_loadable : forall d o p k',
+  store_dir d -> stop_prefix p (op_calls o) ->
+  In k' (list_keys (run d p)) -> exists v, load k' (run d p) = Some v.
+Proof.
+  intros d o p k' S H. eapply list_subset_loadable_lemma; [exact S | | exact H].
+  eapply calls_on_weaken; [apply key_names_store | apply op_calls_on].
+Qed.
+
+Lemma op_frame : forall d o p k',
+  store_dir d -> stop_prefix p (op_calls o) -> k' <> op_key o ->
+  lookup (key_name k') (run d p) = lookup (key_name k') d /\
+  lookup (spool_name k') (run d p) = lookup (spool_name k') d /\
+  load k' (run d p) = load k' d /\
+  (In k' (list_keys (run d p)) <-> In k' (list_keys d)).
+Proof.
+  intros d o p k' S H D.
+  pose proof (stop_prefix_calls_on _ _ _ H (op_calls_on o)) as C.
+  split; [|split; [|split]].
+  - apply (frame_lookup _ _ C k' _ d D). left. reflexivity.
+  - apply (frame_lookup _ _ C k' _ d D). right. reflexivity.
+  - apply (frame_load _ _ C k' d D).
+  - apply (frame_listed _ _ d k' S C D).
+Qed.
+
+Lemma op_interleavings_commute : forall d o1 o2 m,
+  op_key o1 <> op_key o2 -> merge (op_calls o1) (op_calls o2) m ->
+  dir_equiv (run d m) (run (run d (op_calls o1)) (op_calls o2)) /\
+  dir_equiv (run d m) (run (run d (op_calls o2)) (op_calls o1)).
+Proof.
+  intros d o1 o2 m D M.
+  exact (interleave_commute_lemma _ _ _ _ m d D (op_calls_on o1) (op_calls_on o2) M).
+Qed.
+
+Lemma names_lemma :
+  (forall k k', key_name k = key_name k' -> k = k') /\
+  (forall k k', spool_name k = spool_name k' -> k = k') /\
+  (forall k k', key_name k <> spool_name k') /\
+  (forall k, k < key_limit -> parse_key (key_name k) = Some k) /\
+  (forall k, parse_key (spool_name k) = None).
+Proof.
+  repeat split; [exact key_name_inj | exact spool_name_inj | exact key_ne_spool
+                 | exact parse_key_name_small | exact parse_key_spool].
+Qed.
